@@ -344,9 +344,9 @@ Definition dsl_prog_iter : dsl_expr :=
 Lemma dsl_cyclic_refuted :
   fst (dsl_run 400 dsl_prog_cyclic) = DrAbort DaCycle /\ fst (dsl_run 400 dsl_prog_cyclic_tostring) = DrAbort DaCycle.
 Proof. split; vm_compute; reflexivity. Qed.
-(* using null; foo  - the lookup of foo reaches the import whose value is null (F-C15-f) *)
+(* using null; foo  - the lookup of foo reaches the import whose value is null (F-C15-f, fixed by 9625736: a script error) *)
 Definition dsl_prog_null_import : dsl_expr := DeDict true [DeLit DvEmpty; DeVarU [DeLit DvEmpty] "foo"].
-(* intersection([-5], [-5], [-5, 0, 7]) - the third array is longer than the running result (F-C15-g) *)
+(* intersection([-5], [-5], [-5, 0, 7]) - the third array is longer than the running result (F-C15-g, fixed by b5e2da1) *)
 Definition dsl_prog_isect_alias : dsl_expr :=
   DeDict true [DeCall (DeVar "intersection") [DeArray [dsl_n (-5)]; DeArray [dsl_n (-5)]; DeArray [dsl_n (-5); dsl_n 0; dsl_n 7]]].
 (* the neighbours the model follows: a shorter third array; an import that is not reached *)
@@ -355,13 +355,13 @@ Definition dsl_prog_isect_ok : dsl_expr :=
 Definition dsl_prog_null_import_unreached : dsl_expr :=
   DeDict true [dsl_var "a" (dsl_n 4); DeLit DvEmpty; DeVarU [DeLit DvEmpty] "a"].
 
-Lemma dsl_null_import_refuted :
-  fst (dsl_run 400 dsl_prog_null_import) = DrAbort DaNullImport /\
+Lemma dsl_null_import_fixed :
+  fst (dsl_run 400 dsl_prog_null_import) = DrErr DkType /\
   dsl_observe (dsl_run 400 dsl_prog_null_import_unreached) = ["4"; "{}"; "{""a"":4}"; "{}"].
 Proof. split; vm_compute; reflexivity. Qed.
 
-Lemma dsl_isect_alias_refuted :
-  fst (dsl_run 400 dsl_prog_isect_alias) = DrAbort DaIsectAlias /\
+Lemma dsl_isect_alias_fixed :
+  dsl_observe (dsl_run 400 dsl_prog_isect_alias) = ["[-5]"; "{}"; "{}"; "{}"] /\
   dsl_observe (dsl_run 400 dsl_prog_isect_ok) = ["[2,3]"; "{}"; "{}"; "{}"].
 Proof. split; vm_compute; reflexivity. Qed.
 
